@@ -58,7 +58,7 @@ Lemma th_size_of fresh :
 Proof. ctoks. Qed.
 Lemma th_const_self fresh : toks_hyg (tallow fresh) [P "*"; I "const"; I "Self"] = true.
 Proof. ctoks. Qed.
-Lemma th_const_u8 fresh : toks_hyg (tallow fresh) [P "*"; I "const"; I "u8"] = true.
+Lemma th_const_u8 fresh : toks_hyg (tallow fresh) const_u8_ty = true.
 Proof. ctoks. Qed.
 Lemma th_self_ty fresh : toks_hyg (tallow fresh) [I "Self"] = true. Proof. ctoks. Qed.
 
